@@ -4,6 +4,8 @@ import (
 	"go/ast"
 	"go/token"
 	"go/types"
+	"regexp"
+	"sort"
 	"strings"
 
 	"ledgerlint/internal/astx"
@@ -44,7 +46,7 @@ func checkC24(c *core.Ctx) {
 	c.Decide("the allocation algorithm has the shape the property states: every part is first amount×numerator divided by denominator (multiply before divide, integer division) and added to a running total; then, walking the parts from the first one, one unit is added to a part and to the running total while the running total is strictly below the amount; the VM pushes the parts so that the first part is consumed first; an allotment is built only from portions in [0,1], refuses a sum above one and two `remaining`, and sets `remaining` to one minus the sum; the compiler adds every constant portion to the known sum and rejects: known sum above one, known sum below one without `remaining` (variables do not excuse it), known sum equal to one together with a variable or a `remaining`")
 	c.NotDecided("the arithmetic identity itself (that the parts then sum to the amount for every input) — a value-level law, not a code shape; big.Int/big.Rat semantics are trusted")
 	c.Trust("math/big: Mul, Div (Euclidean, = floor for non-negative operands), Rat.Cmp")
-	ruleAllocateShape(c)
+	ruleAllocateShapeTolerant(c)
 	ruleNewAllotmentShape(c)
 	ruleVisitAllotmentShape(c)
 	// exact rationals and arbitrary-size integers only: no machine-word or floating-point shortcut
@@ -310,63 +312,106 @@ func ruleVisitAllotmentShape(c *core.Ctx) {
 	key := declKey(d)
 	// rejections: condition (as a set of conjunct strings) → present
 	want := map[string]string{
-		"total>1":                  "known portions above 100%",
-		"total<1&&!hasRemaining":   "known portions below 100% without `remaining`",
-		"total=1&&hasVariable":     "known portions equal to 100% together with a variable portion",
-		"total=1&&hasRemaining":    "known portions equal to 100% together with `remaining`",
+		"total>1":                "known portions above 100%",
+		"total<1&&!hasRemaining": "known portions below 100% without `remaining`",
+		"total=1&&hasVariable":   "known portions equal to 100% together with a variable portion",
+		"total=1&&hasRemaining":  "known portions equal to 100% together with `remaining`",
 	}
 	got := map[string]bool{}
+	// every error return that is not inside the portion loop, described by the facts that hold there
+	// (works for an if-chain, a first-match switch, or a comparison result kept in a local)
+	var loopBody *ast.BlockStmt
 	ast.Inspect(d.Decl.Body, func(n ast.Node) bool {
-		is, ok := n.(*ast.IfStmt)
-		if !ok || !astx.Terminates(info, is.Body.List) {
-			return true
-		}
-		r, _ := is.Body.List[len(is.Body.List)-1].(*ast.ReturnStmt)
-		if r == nil || len(r.Results) != 1 || astx.IsNilExpr(info, r.Results[0]) {
-			return true
-		}
-		// top-level only (not inside the portion loop)
-		top := false
-		for _, st := range d.Decl.Body.List {
-			if st == ast.Stmt(is) {
-				top = true
+		switch l := n.(type) {
+		case *ast.ForStmt:
+			if loopBody == nil {
+				loopBody = l.Body
+			}
+		case *ast.RangeStmt:
+			if loopBody == nil {
+				loopBody = l.Body
 			}
 		}
-		if !top {
+		return true
+	})
+	normFact := func(f string) string {
+		positive := f[0] == '+'
+		body := nospace(f[1:])
+		// total.Cmp(big.NewRat(1,1)) <op> k
+		if m := regexp.MustCompile(`^total\.Cmp\(big\.NewRat\(1,1\)\)(==|>|<|!=)(-?[0-9]+)$`).FindStringSubmatch(body); m != nil && positive {
+			switch m[1] + m[2] {
+			case "==1", ">0":
+				return "total>1"
+			case "==-1", "<0":
+				return "total<1"
+			case "==0":
+				return "total=1"
+			}
+			return "total?" + m[1] + m[2]
+		}
+		if regexp.MustCompile(`^[A-Za-z_][A-Za-z0-9_]*$`).MatchString(body) {
+			if positive {
+				return body
+			}
+			return "!" + body
+		}
+		return ""
+	}
+	ast.Inspect(d.Decl.Body, func(n ast.Node) bool {
+		r, ok := n.(*ast.ReturnStmt)
+		if !ok || len(r.Results) != 1 || astx.IsNilExpr(info, r.Results[0]) {
+			return true
+		}
+		if loopBody != nil && loopBody.Pos() <= r.Pos() && r.End() <= loopBody.End() {
 			return true
 		}
 		var parts []string
-		var split func(e ast.Expr)
-		split = func(e ast.Expr) {
-			if be, ok := ast.Unparen(e).(*ast.BinaryExpr); ok && be.Op == token.LAND {
-				split(be.X)
-				split(be.Y)
-				return
-			}
-			if lhs, op := ratCmp(e); lhs == "total~big.NewRat(1,1)" {
-				switch op {
-				case "==1", ">0":
-					parts = append(parts, "total>1")
-				case "==-1", "<0":
-					parts = append(parts, "total<1")
-				case "==0":
-					parts = append(parts, "total=1")
-				default:
-					parts = append(parts, "total?"+op)
+		seen := map[string]bool{}
+		hasTotal := false
+		for _, f := range factStrings(info, d.Decl.Body, r.Pos()) {
+			// a local holding the comparison (`cmp := total.Cmp(one)`) is expanded textually
+			ff := f
+			if m := regexp.MustCompile(`^([+-])([A-Za-z_][A-Za-z0-9_]*)(==|>|<)(-?[0-9]+)$`).FindStringSubmatch(nospace(f)); m != nil {
+				var def ast.Expr
+				ast.Inspect(d.Decl.Body, func(x ast.Node) bool {
+					if as, ok := x.(*ast.AssignStmt); ok && len(as.Lhs) == 1 && len(as.Rhs) == 1 && types.ExprString(as.Lhs[0]) == m[2] {
+						def = as.Rhs[0]
+					}
+					return true
+				})
+				if def != nil {
+					ff = m[1] + nospace(types.ExprString(def)) + m[3] + m[4]
 				}
-				return
 			}
-			parts = append(parts, nospace(types.ExprString(e)))
+			nf := normFact(ff)
+			if nf == "" || nf == "!err" || nf == "err" || seen[nf] {
+				continue
+			}
+			if strings.HasPrefix(nf, "total") {
+				hasTotal = true
+			}
+			seen[nf] = true
+			parts = append(parts, nf)
 		}
-		split(is.Cond)
+		if !hasTotal {
+			return true
+		}
+		sort.Slice(parts, func(i, j int) bool {
+			ti, tj := strings.HasPrefix(parts[i], "total"), strings.HasPrefix(parts[j], "total")
+			if ti != tj {
+				return ti
+			}
+			return parts[i] < parts[j]
+		})
 		got[strings.Join(parts, "&&")] = true
 		return true
 	})
+	recognised := len(got) >= 2
 	for cond, what := range want {
-		c.Check(got[cond], "SHAPE/visit-allotment", key+":rejects:"+cond, pos(c, d.Decl), "rejected at compile time", "the compiler does not reject an allotment with "+what+" (exactly under that condition): such an allotment can allocate more or less than the amount at run time")
+		c.Shape(recognised, got[cond], "SHAPE/visit-allotment", key+":rejects:"+cond, pos(c, d.Decl), "rejected at compile time", "the compiler does not reject an allotment with "+what+" (exactly under that condition): such an allotment can allocate more or less than the amount at run time")
 	}
 	for cond := range got {
-		if _, ok := want[cond]; !ok && strings.HasPrefix(cond, "total") {
+		if _, ok := want[cond]; !ok && recognised {
 			c.Fail("SHAPE/visit-allotment", key+":rejects:"+cond, pos(c, d.Decl), "unexpected rejection condition on the known sum: "+cond)
 		}
 	}
